@@ -532,7 +532,10 @@ pub fn c06(cx: &Ctx, v: &mut Vec<Violation>) {
             _ if is_kw(ty) => {
                 if !keywords_of(ty).iter().any(|w| *w == up) { bad = Some("keyword text".into()); }
             }
-            _ => { bad = Some("unclassified type".into()); }
+            _ => {
+                // a token type the shape table does not know (added after this table was written):
+                // the table promises nothing about it, so there is nothing to check
+            }
         }
         if let Some(m) = bad {
             v.push(Violation::new("C06", "shape", format!("shape:{:?}:{}", ty, m), format!("token {i} {:?} text {:?}: {m}", ty, raw)));
